@@ -105,11 +105,29 @@ def session_case(seed, index, n_bursts=None):
     return r, cfg, nb
 
 
+class SessionHang(BaseException):
+    """a session did not finish within the watchdog's (real-time) limit: the serving thread is stuck"""
+
+
+def _alarm(_sig, _frm):
+    raise SessionHang("session exceeded %d s" % WATCHDOG_S)
+
+
+WATCHDOG_S = 20
+
+
 def run_case(seed, index, n_bursts=None, force_default=False):
+    import signal
     r, cfg, nb = session_case(seed, index, n_bursts)
     if force_default:
         cfg = "default"
-    s, desc = hw.run_session(r, nb, config=config_of(cfg), cfg_text=cfg)
+    old = signal.signal(signal.SIGALRM, _alarm)
+    signal.alarm(WATCHDOG_S)
+    try:
+        s, desc = hw.run_session(r, nb, config=config_of(cfg), cfg_text=cfg)
+    finally:
+        signal.alarm(0)
+        signal.signal(signal.SIGALRM, old)
     s.cfg_text = cfg
     return s, desc
 
@@ -129,7 +147,7 @@ def event_kinds(impl_line):
             out.append(head + ":" + e.rsplit(" ", 1)[1])
         elif head == "req":
             out.append("req:h%s" % e.split(" ")[2])
-        elif head.startswith("a:"):
+        elif head.startswith("a:") or head == "request":
             continue
         else:
             out.append(head)
@@ -166,6 +184,11 @@ def correspondence(ctx):
             s, desc = run_case(ctx.seed, i)
         except rt.Unobservable as ex:
             c.count("unobservable:" + str(ex)[:60])
+            continue
+        except SessionHang as ex:
+            c.count("hang")
+            c.disagreements.append(dict(case=dict(kind="history", seed=ctx.seed, index=i), first_difference=-1,
+                                        impl="the serving thread hangs (%s)" % ex, model="every session terminates"))
             continue
         except Exception as ex:  # noqa
             c.error = "session %d crashed the harness: %r" % (i, ex)
